@@ -65,7 +65,7 @@ static void scenario(int nthreads, int rounds)
   mc_eventf(obs);
 }
 
-MC_SCENARIO(stamps_t1, 4, 6) { scenario(1, 1); }
-MC_SCENARIO(stamps_t2, 3, 4) { scenario(2, 1); }
-MC_SCENARIO(stamps_t1_r2, 3, 5) { scenario(1, 2); }
+MC_SCENARIO(stamps_t1, 5, 8) { scenario(1, 1); }
+MC_SCENARIO(stamps_t2, 3, 5) { scenario(2, 1); }
+MC_SCENARIO(stamps_t1_r2, 4, 6) { scenario(1, 2); }
 MC_SCENARIO(stamps_t3, 2, 3) { scenario(3, 1); }
